@@ -52,6 +52,8 @@ pub struct RunResult {
     pub max_call_steps: BTreeMap<String, u64>,
     pub max_nodes: usize,
     pub max_deviations: (u32, u32, u32),
+    /// The execution in which a load / load_full took the most own steps.
+    pub max_load: (u64, Vec<u16>),
 }
 
 pub fn cfg_string(c: &Config) -> String {
@@ -121,6 +123,9 @@ pub fn run_local(
                     let e = out.max_call_steps.entry(kind_name(*k).to_string()).or_insert(0);
                     if *v > *e {
                         *e = *v;
+                    }
+                    if matches!(k, Kind::Load | Kind::LoadFull) && *v > out.max_load.0 {
+                        out.max_load = (*v, res.choices.clone());
                     }
                 }
                 out.max_nodes = out.max_nodes.max(w.max_nodes);
@@ -201,6 +206,9 @@ pub fn probe_local(
     world::world(|w| {
         for (k, v) in &w.max_steps {
             out.max_call_steps.insert(kind_name(*k).to_string(), *v);
+            if matches!(k, Kind::Load | Kind::LoadFull) && *v > out.max_load.0 {
+                out.max_load = (*v, res.choices.clone());
+            }
         }
         out.max_nodes = w.max_nodes;
     });
